@@ -309,11 +309,11 @@ class C19(Spec):
         import random
         for kind in ('int', 'str', 'tup', 'ref', 'arr', 'lst', 'tab', 'tre', 'rtt', 'rto', 'sty'):
             cs.append(Case(f'sys_{kind}', systematic(kind)))
-        n_rand = (40 if quick else 900) * boost
+        n_rand = (40 if quick else 2500) * boost
         for i in range(n_rand):
             r = random.Random(rng.random())
             cs.append(Case(f'rand{i}', random_history(r, r.randrange(60, 220 if quick else 500), r.choice([0, 10, 40]))))
-        n_cont = (10 if quick else 150) * boost
+        n_cont = (10 if quick else 400) * boost
         for i in range(n_cont):
             r = random.Random(rng.random())
             cs.append(Case(f'cont{i}', container_history(r, r.randrange(50, 150 if quick else 600))))
